@@ -212,9 +212,10 @@ def run(ctx):
     for n in (1, 2, 3):
         for c in itertools.product(CONTEXTS, repeat=n):
             chains.append(c)
-    if ctx.quick:
-        d3 = [c for c in chains if len(c) == 3]
-        chains = [c for c in chains if len(c) < 3] + r.sample(d3, 700)
+    # depth 3 is sampled (16^3 chains x ~130 payloads is out of reach): 700 chains x 6 payloads in
+    # quick, 1200 chains x all payloads in thorough
+    d3 = [c for c in chains if len(c) == 3]
+    chains = [c for c in chains if len(c) < 3] + r.sample(d3, 700 if ctx.quick else 1200)
     progs = []
     for c in chains:
         ps = payloads(min(len(c), 3))
@@ -266,12 +267,12 @@ def run(ctx):
         evaluations=len(meta) + nc,
         distinct_nontrivial=accepted,
         rule="case = (chain of enclosing contexts, payload); all chains up to depth 2 x all payloads (depth 3: 700 sampled chains x 6 sampled payloads "
-             "in quick, all in thorough); distinct = programs the checker ACCEPTED, each of which was also compiled and executed",
+             "in quick, 1200 sampled chains x all payloads in thorough); distinct = programs the checker ACCEPTED, each of which was also compiled and executed",
         samples=[{"case": meta["n000010"][0], "program": meta["n000010"][1][len(DECLS):]}],
         programs=len(meta),
         accepted=accepted,
         finding_kinds=kinds,
-        exhaustive=not ctx.quick,
+        exhaustive=False,
     )
     ctx.need(accepted >= 200, "fewer than 200 programs were accepted by the checker")
 
